@@ -11,7 +11,8 @@ import itertools
 INF = float("inf")
 METS = ["A", "B", "C"]
 
-BOUNDS_MENU = [(0, 10), (-10, 10), (0, 0), (2, 10), (-10, -2), (-10, 0), (3, 3), (0, INF), (-INF, INF), (0, 1000)]
+BOUNDS_MENU = [(0, 10), (-10, 10), (0, 0), (2, 10), (-10, -2), (-10, 0), (3, 3), (0, INF), (-INF, INF), (0, 1000),
+               (-INF, -2), (2, INF)]
 
 
 def columns(nm=3, K=(-1, 0, 1)):
